@@ -53,6 +53,9 @@ func init() {
 		Old: "\t\tprecEnd := start + prec + 1 // include dot\n\t\tif dot == start {           // for numbers like .012\n\t\t\tdigit := start + 1\n", New: "\t\tprecEnd := start + prec + 1 // include dot\n\t\tdigit := start + 1\n\t\tif dot == start {           // for numbers like .012\n",
 		Old2: "\t\t\tif inc {\n\t\t\t\tif dot == start && end == start+1 {", New2: "\t\t\tif inc {\n\t\t\t\tif dot == start && end == digit {",
 		Rule: "R08.9", Construct: "Decimal/scan cursor"})
+	mutant(&Mutant{Name: "c08-exponent-digits-assumed-in-place", Property: "C08", File: "common.go",
+		Old: "\t\tfor i := end + lenNormExp - 1; end <= i; i-- {\n\t\t\tnum[i] = -byte(normExp%10) + '0'\n\t\t\tnormExp /= 10\n\t\t}\n", New: "\t\tif normExp != origExp {\n\t\t\tfor i := end + lenNormExp - 1; end <= i; i-- {\n\t\t\t\tnum[i] = -byte(normExp%10) + '0'\n\t\t\t\tnormExp /= 10\n\t\t\t}\n\t\t}\n",
+		Rule: "R08.10", Construct: "after its digits were stored"})
 	mutant(&Mutant{Name: "c08-number-appends", Property: "C08", File: "common.go",
 		Old: "\t\treturn num // exponent overflow\n", New: "\t\treturn append(num[:start], '0') // exponent overflow\n",
 		Rule: "R08.2", Construct: "Number"})
@@ -73,6 +76,7 @@ func runC08(c *Ctx) {
 	c.r087(pk)
 	c.r088(pk)
 	c.r089(pk)
+	c.r0810(pk)
 	for _, name := range []string{"Decimal", "Number"} {
 		fd := c.fn(r2, pk, name)
 		if fd == nil {
